@@ -31,6 +31,7 @@ type c02Case struct {
 	Src      string            `json:"src"`
 	Files    map[string]string `json:"files,omitempty"`
 	MustFail string            `json:"must_fail,omitempty"` // structural mistake kind: err must be non-nil
+	Base     string            `json:"base,omitempty"`      // structural: the valid program the mistake was built on (premise: it parses)
 }
 
 var c02Dict = []string{
@@ -173,6 +174,7 @@ func genC02(t *rapid.T) c02Case {
 	default:
 		c.Gen = "structural"
 		p := valid("p")
+		c.Base = p
 		kind := rapid.SampledFrom([]string{"unterminated-action", "unterminated-action-empty", "unterminated-comment", "unterminated-string", "unterminated-rawstring", "unterminated-char",
 			"missing-end-if", "missing-end-range", "missing-end-block", "missing-end-try", "missing-end-yieldcontent", "surplus-end", "surplus-end-after-block",
 			"extends-after-text", "import-after-text", "extends-after-action", "import-after-action"}).Draw(t, "mistake")
@@ -287,6 +289,16 @@ func judgeC02(c c02Case) (v core.Verdict) {
 		return
 	}
 	if c.MustFail != "" {
+		// premise: the program the mistake was built on is itself accepted (with exotic delimiters an
+		// operator such as '>' can be the right delimiter, and then the "valid program" is not one)
+		if c.Base != "" {
+			b, bcrash, bhang, _ := isoCall(isoReq{Op: "parse", Name: name, Src: c.Base, Delims: c.Delims, Files: c.Files})
+			if bcrash != "" || bhang || b.HasErr || b.CallerPanic != "" {
+				v.Discard = "structural-premise-not-valid"
+				v.Err = ""
+				return
+			}
+		}
 		v.Failf("%s: structural mistake %q was silently accepted", desc, c.MustFail)
 	}
 	return
